@@ -259,6 +259,42 @@ CLAIMS = {
              "CompleteValid alone is not preserved by the status marks (hence the word-level invariant); "
              "check_and_mark_done does not check the header kind (the session invariant supplies it).",
         design_ref="DESIGN.md section 6 (C04)"),
+    "C19": dict(
+        text="Proved in Lean: repair_exact / naive_repair_exact / orig_repair_exact (whatever a repair step of either "
+             "updater computes is the original fragment, given that the stored fragments are the originals / the row "
+             "XORs), dup_noop_naive / dup_consumed_naive / dup_noop_orig / dup_consumed_orig (a duplicate issues no "
+             "program and changes no counter), peel_confluent + run_is_closure + complete_iff_peel_partial (on the "
+             "mask-level machine Abs, completion holds exactly when the single-missing-fragment peeling closure of the "
+             "received data and coded rows covers everything; the closure is unique), naive_step_is_abs / "
+             "orig_step_is_abs (one repair decision of either flash-level model = one step of Abs on the masks the status "
+             "tables read as), same_rows, naive_eq_orig_partial (both implementations' mask machines agree on every "
+             "prefix within both accepted ranges), naive_parity_count_le / naive_parity_header_parses (after the repair). "
+             "Both real crates are fed the same sessions (losses, orders, duplicates, reboots) and compared with both "
+             "models call by call; the oracle is an independent peeling decoder; the naive back-end additionally with a "
+             "power loss at every mutating-op boundary.",
+        note="The _partial theorems are about the mask-level machine: that after the programs of a delivery the status "
+             "tables read as the masks of Abs.deliver is checked by the correspondence suite, not proved. Defects fixed "
+             "in /repo: naive parity count not clamped; deprecated crate's duplicate check read 256 bytes.",
+        design_ref="DESIGN.md section 6 (C19)"),
+    "C20": dict(
+        text="Proved in Lean for every ring size 3..6, rotation, fill level and start value (sequence numbers modulo "
+             "2^32-1, so the wrap-around is covered): next_seq_never_reserved / next_seq_injective / "
+             "next_seq_closed_form, ordered_headers_spec / ordered_headers_blank / no_assert (get_ordered_headers rotates "
+             "to the position after the newest; the assert is unreachable on consistent states), plan_first / "
+             "start_places_partial (the two positions after the newest, numbered next_seq and next_seq^2, never "
+             "0xFFFFFFFF), app_pair_spec / app_status_resumes_partial / appBootStatus_eq (the application status resumes "
+             "exactly the newest in-progress firmware/parity pair with plausible geometry, otherwise idle), "
+             "remediate_covers / cancel_covers (every other in-progress slot is aborted or erased), reasonable_iff / "
+             "start_rejects_unrepresentable / start_rejects_untouched, write_in_slot / plan_in_slot (every operation of "
+             "an accepted fragment write, for any device state incl. crash and tear, lies inside the fragment's own "
+             "slot), plus decide-witnesses for the two pinned defects (write_beyond_slot_witness, "
+             "app_status_error_witness). On the real code: every consistent ring state for N = 3..6 x 8 start values, "
+             "power loss at every operation of start, fragment indices swept over the accepted range.",
+        note="start_places_partial / app_status_resumes_partial: the step 'erase + 28-byte header program turns the "
+             "headers read back into putHeader …' (the C11 round trip on an erased slot) is a hypothesis, checked by the "
+             "correspondence suite. Defects fixed in /repo: range check ignoring the data-region offset; app_boot_status "
+             "returning an error forever after a power loss inside start; start accepting unrepresentable geometries.",
+        design_ref="DESIGN.md section 6 (C20)"),
 }
 
 _TODO = "check not built yet in this session (planned in DESIGN.md section 6); not believed to be outside the technique"
